@@ -209,8 +209,21 @@ def native_check(v):
         if why is None and r[0] == 'ok' and (v['obstacle'] == 'target_is_dir'):
             why = 'native export reports success although the target is a directory'
     else:
-        if why is None and r[0] == 'ok':
+        if why is None and r[0] == 'ok' and not (v['obstacle'] == 'dotdot' and t == 6 and e == 'export'):
             why = f'native {e}({tdefs[t].name}) reports success'
+        if why is None and r[0] != 'ok':
+            # what did the failed call leave behind?  the same history cut before / after the failing step
+            base = [(0, 'mkdir', 'bindings'), (0, 'mkfile', 'bindings/keep.txt', 'unrelated')]
+            _, before = W.native_history('plain', None, tdefs, steps[:k], None, base) if k else (None, {'bindings/keep.txt': 'unrelated'})
+            _, after = W.native_history('plain', None, tdefs, steps[:k + 1], None, base)
+            allowed = set()
+            if e != 'export':
+                for j in W.closure(tdefs, t):
+                    if tdefs[j].out and not tdefs[j].out.startswith('../'):
+                        allowed.add('bindings/' + tdefs[j].out)
+            changed = {f for f in set(before) | set(after) if before.get(f) != after.get(f)}
+            if changed - allowed:
+                why = f'natively the failed {e}({tdefs[t].name}) modified other files: {sorted(changed - allowed)}'
     return why is not None, {'why': why, 'results': results, 'files': files}
 
 
